@@ -9,7 +9,7 @@ P = "Minicbor.C09."
 REQUIRED = [P + n for n in """dec_roundtrip fields_roundtrip vars_roundtrip derive_roundtrip derive_roundtrip_exact_length
 encVars_eq blob_rt derive_wrong_tag derive_wrong_tag_enum derive_missing_tag resolve_missing derive_missing_mandatory
 derive_unknown_variant derive_enum_wrong_wrapper_length borrowed_leaf_is_input_slice null_clash_counterexample
-derive_decode_reframed_partial derive_decode_reframed_K8_repaired
+derive_decode_reframed_partial derive_decode_reframed_K8_repaired rf_sim sim_fields sim_vars reframes_complete derive_decode_reframed_full
 fieldsDec_indef derive_decode_indefinite_struct
 rf_dec rf_fields rf_vars derive_decode_reframed reframed_examples
 pref_rf pref_fields pref_vars reframes_preferred derive_roundtrip_from_reframed val_rf val_fields val_vars reframes_sound
